@@ -24,6 +24,10 @@ from harness.core import run_oracle_cases
 PROP = 'C07'
 PROOF_MODULES = ['Ladybug.Props.C07']
 GREP_MODULES = ['Ladybug.Model.Codec', 'Ladybug.Model.Serial.Basic', 'Ladybug.Model.Serial.Coll',
+                'Ladybug.Model.Serial.Legend', 'Ladybug.Model.Serial.DesignDay', 'Ladybug.Model.Serial.Wea',
+                'Ladybug.Model.Serial.Csv', 'Ladybug.Proofs.C07Basic', 'Ladybug.Proofs.C07Loc',
+                'Ladybug.Proofs.C07Legend', 'Ladybug.Proofs.C07DesignDay', 'Ladybug.Proofs.C07Wea',
+                'Ladybug.Proofs.C07Csv', 'Ladybug.Model.AP', 'Ladybug.Gen.ApTables',
                 'Ladybug.Gen.DataTypeNames', 'Ladybug.Drv.C07',
                 'Ladybug.DrvCore', 'Ladybug.Py', 'Ladybug.Model.Cal']
 RULE = ('instances are described by plain-data specs (class + constructor arguments) drawn type-directed '
@@ -36,42 +40,52 @@ RULE = ('instances are described by plain-data specs (class + constructor argume
         'oracle: dict+JSON, to_dict fixed point, key order, duplicate/copy, text forms, CSV/JSON/PKL files. '
         'A case is non-trivial when the implementation returns a value; distinct = distinct (op, input).')
 TRUSTED_BASE = [
-    'translator tools/extract/datatype_names.py: class names of the standard data types',
+    'translators tools/extract/datatype_names.py (class names of the standard data types), ap_tables.py and '
+    'dt_tables.py (tables of the calendar / analysis-period models the codecs reuse)',
     'modelled, not verified: json.dumps/json.loads keep ints, strings, bools, None and finite floats '
     '(bit-exact; op json_float checks it for every generated float), turn tuples into lists and integer '
     'keys into their decimal text; CPython dict semantics; pickle/copy',
-    'floats are opaque bit patterns in the model: float(int) and round(lon/15) are executed by the driver '
-    'but nothing is proved about them',
+    'floats are opaque bit patterns in the model: float(int), round(lon/15) and the 2-stop re-mapping of '
+    'ColorRange.domain are executed by the driver with IEEE arithmetic but nothing is proved about them (the '
+    'ColorRange law carries the re-mapping\'s idempotence on 2-colour ranges as an explicit hypothesis)',
     'unit acceptance lists of the standard data types are not modelled (the harness sends acceptable units)',
     'the enc direction of the correspondence goes through dec: the model is asked for enc(dec(v)) on real '
     'to_dict outputs v',
-    'character-level text of AnalysisPeriod.__repr__/from_string is tied by correspondence only '
-    '(theorem C07_AnalysisPeriod_string is at token level)',
-    'classes compared and oracle-checked only, not modelled in Lean: ColorRange, LegendParameters(+Categorized, '
-    '2D/3D), Legend, DesignDay and its conditions, DDY, Wea, EPW, PsychrometricChart, the CSV/PKL file forms',
+    'character level of the text forms (str.split / join, %d printing, the replace chain of '
+    'AnalysisPeriod.from_string) is executable in the model and tied by correspondence only: the theorems '
+    'C07_AnalysisPeriod_string_partial and C07_HeaderCsv_partial are at token level (hypothesis SplitsBack)',
+    'non-default Legend3DParameters / Legend2DParameters, the text of generated category names, legends with '
+    'categorized parameters, continuous non-annual Wea objects (law proved for annual and discontinuous ones), '
+    'EPW, PsychrometricChart and the CSV/PKL *file* forms are compared / oracle-checked only, not proved',
+    'len(AnalysisPeriod) and its datetimes in the Wea codec come from the C04 model (Model/AP.lean)',
 ]
 ASSUMPTIONS = ['object equality is the class\'s own __eq__ where defined; ColorRange, EPW and '
                'PsychrometricChart define none and are compared through their dictionaries']
-LEVEL_TEXT = ('Machine-checked Lean 4 theorems over a codec model of the dictionary forms: json.loads(json.dumps) '
+LEVEL_TEXT = ('Machine-checked Lean 4 theorems (36) over a codec model of the serial forms: json.loads(json.dumps) '
               'modelled as jsonRT (tuples to lists, integer keys to text); the round-trip law '
               'dec(jsonRT(enc a)) = a is proved for every well-formed DateTime, Date, Time, AnalysisPeriod '
-              '(incl. duplicate and the token-level text form), Location, Color, standard and generic DataType, '
-              'Header and all five data-collection classes (MonthlyPerHour as repaired), together with the '
-              'to_dict fixed point and, once for all record decoders, independence of key order and of unknown '
-              'keys.  The model is compared with the real from_dict/to_dict on generated instances on every '
-              'run; every other serial form of the statement (files, copies, composite classes) is checked by '
-              'the oracle on the real code only.')
+              '(incl. duplicate and token-level text), Location, Color, standard and generic DataType, Header, '
+              'the five data-collection classes and immutable twins, ColorRange, LegendParameters, '
+              'LegendParametersCategorized, Legend, the design-day conditions, DesignDay, DDY (list lift) and '
+              'annual Wea; with the to_dict fixed point and, once for all record decoders, independence of key '
+              'order and of unknown keys; the CSV header strings at token level under the stated guard.  '
+              'Recorded findings have counterexample theorems (data-type naming, categorized default names, '
+              'discontinuous Wea flag, CSV separators, generic-type text).  The model is compared with the real '
+              'from_dict/to_dict and text functions on generated instances on every run; file forms, copies, '
+              'EPW and psychrometric charts are checked by the oracle on the real code only.')
 LEVEL_NOTE = ('Trusted: Lean kernel; axioms propext/Classical.choice/Quot.sound only; JSON library behaviour as '
-              'modelled by jsonRT; floats opaque; the data-type-name extractor; correspondence on generated '
-              'inputs only.  ColorRange, legends, design days, DDY, Wea, EPW, psychrometric charts and the '
-              'CSV/PKL file forms are oracle-only (sampled, not proved).')
+              'modelled by jsonRT; floats opaque; the table extractors; correspondence on generated inputs only; '
+              'character-level split/join behind the hypothesis SplitsBack.  EPW, PsychrometricChart, non-default '
+              '3D/2D legend properties and the CSV/PKL file forms are oracle-only (sampled, not proved).')
 TECHNIQUE = ('Lean 4 proof (codec combinators, simp over finite-map lookups, induction on lists) about a model '
-             'tied to the code by differential correspondence and a regenerated class-name table')
+             'tied to the code by differential correspondence and regenerated tables')
 
 
 def extract(ctx):
-    from tools.extract import datatype_names
+    from tools.extract import datatype_names, ap_tables, dt_tables
     ctx.datatype_names = datatype_names.extract()
+    ap_tables.extract()       # Model/AP.lean (len / datetimes of an analysis period, used by the Wea codec)
+    dt_tables.extract()       # Model/Cal.lean
 
 
 # ---------------------------------------------------------------------------------------------
@@ -330,8 +344,9 @@ def build(spec):
             dh = [float((i * 3) % 300) for i in range(n)]
             return L['wea'].Wea.from_annual_values(loc, dn, dh, spec.get('timestep', 1),
                                                    bool(spec.get('leap')))
-        w = L['wea'].Wea.from_annual_values(loc, [float(i % 800) for i in range(8760)],
-                                            [float(i % 200) for i in range(8760)])
+        ts = spec['ap']['args'][6]
+        w = L['wea'].Wea.from_annual_values(loc, [float(i % 800) for i in range(8760 * ts)],
+                                            [float(i % 200) for i in range(8760 * ts)], ts)
         return w.filter_by_analysis_period(build(spec['ap']))
     if c == 'EPW':
         return L['epw'].EPW(os.path.join(core.REPO, 'tests', 'assets', 'epw', spec['file']))
@@ -1097,7 +1112,11 @@ def _oracle_cases(ctx):
     for _ in range(6 * k):
         for x in emit(gen_psych(rng), ('dict_json',)):
             yield x
-    weas = [{'cls': 'Wea', 'location': gen_location(rng), 'annual': True, 'timestep': 1, 'leap': False}]
+    weas = [{'cls': 'Wea', 'location': gen_location(rng), 'annual': True, 'timestep': 1, 'leap': False},
+            {'cls': 'Wea', 'location': gen_location(rng), 'annual': False,
+             'ap': {'cls': 'AnalysisPeriod', 'args': [3, 1, 0, 3, 2, 23, 2, False]}},
+            {'cls': 'Wea', 'location': gen_location(rng), 'annual': False,
+             'ap': {'cls': 'AnalysisPeriod', 'args': [9, 30, 0, 10, 1, 23, 4, False]}}]
     if big:
         weas += [{'cls': 'Wea', 'location': gen_location(rng), 'annual': True, 'timestep': 2, 'leap': True},
                  {'cls': 'Wea', 'location': gen_location(rng), 'annual': False,
@@ -1354,6 +1373,22 @@ def _correspondence(ctx):
         ('LegendParametersCategorized', [gen_legendpar_cat(rng) for _ in range(120 * n)], lpc_reader),
         ('Legend', legend_specs(), L['lg'].Legend.from_dict),
     ]
+    crd = []
+    for _ in range(200 * n):
+        k = rng.choice([2, 3, 5])
+        d = {'colors': [dict(zip('rgba', gen_color(rng))) for _ in range(k)]}
+        if rng.random() < 0.2:
+            d.pop('colors')
+            k = 10
+        m = rng.choice([1, 2, 2, 3, k])
+        d['domain'] = [rng.choice([rng.randrange(-5, 50), float(rng.randrange(-5, 50)) / 4]) for _ in range(m)]
+        if rng.random() < 0.15:
+            d['domain'] = rng.choice([None, [], [0, 0]])
+        if rng.random() < 0.8:
+            d['continuous_colors'] = rng.random() < 0.5
+        crd.append(d)
+    _model_rt(ctx, 'rtctor_ColorRange', 'ColorRange', crd, L['col'].ColorRange.from_dict)
+
     for cls, specs, reader in lgroups:
         ds = [d for d in real_dicts(specs) if no_props(d)]
         _model_rt(ctx, 'rt_' + cls, cls, ds, reader)
@@ -1406,7 +1441,8 @@ def _correspondence(ctx):
         full = rng.random() < 0.5
         sh, eh = (0, 23) if full else (rng.randrange(0, 12), rng.randrange(12, 24))
         wspecs.append({'cls': 'Wea', 'location': gen_location(rng), 'annual': False,
-                       'ap': {'cls': 'AnalysisPeriod', 'args': [m, d0, sh, m, d0 + rng.choice([0, 1, 2]), eh, 1, False]}})
+                       'ap': {'cls': 'AnalysisPeriod', 'args': [m, d0, sh, m, d0 + rng.choice([0, 1, 2]), eh,
+                                                                 rng.choice([1, 1, 2, 4]), False]}})
     wds = real_dicts(wspecs)
     _model_rt(ctx, 'rt_Wea', 'Wea', wds, L['wea'].Wea.from_dict)
     wm = []
